@@ -608,8 +608,12 @@ impl File {
             roots.push(ast::Root::Face(face.into()))
         }
         for (i, &u) in self.header.additional_data.iter().enumerate() {
-            let i: u8 = i.try_into().unwrap();
-            let i = i.checked_add(18).unwrap(); // TODO: gotta be a warning here
+            // The index of a HEADER property is a small integer: header words beyond 255 cannot
+            // be written to a property list file. TODO: gotta be a warning here
+            let i: u8 = match u8::try_from(i).ok().and_then(|i| i.checked_add(18)) {
+                Some(i) => i,
+                None => break,
+            };
             roots.push(ast::Root::Header((ast::DecimalU8(i), u).into()))
         }
         #[derive(Clone, Copy)]
